@@ -62,6 +62,8 @@ def run(report: Report, tier, seed):
         "A4 L-call (meta-lemma): the per-call-site contract + AVM frame discipline give caller-state preservation for whole programs",
         "not yet under contract (bounded only): SubroutineCall.__teal__, SubroutineEval.evaluate, frame.py, findRecursionPoints")
     run_contracts(report, [("contracts.c02_spill", "Spill", "O2.4")])
+    from .frag import run_fragcheck
+    run_fragcheck(report, "O2.1", classes={"SubroutineCall", "Return"}, tier=tier)
     fails = bounded(report, tier, seed)
     report.sample({"obligation": "O2.4/callsite/stack-after-restore",
                    "meaning": "after `before; callsub f; after` the stack is base ++ result(f) for symbolic numArgs, len(slots), version"})
